@@ -116,6 +116,21 @@ fn states_for(r: &mut Sm, spec: &Spec, n: usize) -> Vec<Vec<f64>> {
     while v.len() < n {
         v.push(crate::world::rand_state(r, &bv));
     }
+    // quaternions that are not unit (the state type does not normalise): a compound must hand
+    // them to its rotation component exactly as they are
+    let offs = spec.offsets();
+    for (ci, c) in spec.comps.iter().enumerate() {
+        if matches!(c.kind, CK::So3 { .. }) {
+            for k in 0..4.min(v.len()) {
+                let mut s = v[(k * 7 + 3) % v.len()].clone();
+                let f = [2.0, 0.5, 1.0 + 1e-6, 3.0][k];
+                for x in s[offs[ci]..offs[ci] + 4].iter_mut() {
+                    *x *= f;
+                }
+                v.push(s);
+            }
+        }
+    }
     v
 }
 
@@ -663,12 +678,16 @@ pub fn run(tier: Tier, seed: u64) -> i32 {
     let se_jobs: Vec<(bool, f64, Option<Vec<(f64, f64)>>)> = {
         let mut v = vec![];
         for se3 in [false, true] {
-            for w in [0.0, 1e-3, 0.3, 1.0, 50.0] {
+            for w in [0.0, 1e-3, 0.3, 1.0, 50.0, -0.5] {
                 v.push((se3, w, None));
                 v.push((se3, w, Some(if se3 { vec![(-1.0, 1.0), (0.0, 5.0), (-3.0, -1.0)] } else { vec![(-1.0, 1.0), (0.0, 5.0), (-1.0, 2.0)] })));
                 if !se3 {
                     v.push((se3, w, Some(vec![(-10.0, 10.0), (-10.0, 10.0), (-PI, PI)])));
                     v.push((se3, w, Some(vec![(-10.0, 10.0), (-10.0, 10.0), (-4.0, 4.0)])));
+                    // yaw intervals at least a full turn wide that do not contain [-pi, pi]
+                    v.push((se3, w, Some(vec![(-10.0, 10.0), (-10.0, 10.0), (0.0, 2.0 * PI)])));
+                    v.push((se3, w, Some(vec![(-10.0, 10.0), (-10.0, 10.0), (-1.0, 6.0)])));
+                    v.push((se3, w, Some(vec![(-10.0, 10.0), (-10.0, 10.0), (-8.0, 0.5)])));
                 }
             }
         }
